@@ -1471,7 +1471,7 @@ func staticMakeClosure(v ssa.Value, at ssa.Instruction) *ssa.MakeClosure {
 	for i := pos - 1; i >= 0; i-- {
 		switch x := instrs[i].(type) {
 		case *ssa.Store:
-			if fa2, ok := x.Addr.(*ssa.FieldAddr); ok && fa2.X == fa.X && fa2.Field == fa.Field {
+			if fa2, ok := x.Addr.(*ssa.FieldAddr); ok && sameBase(fa2.X, fa.X, 3) && fa2.Field == fa.Field {
 				mc, _ := x.Val.(*ssa.MakeClosure)
 				return mc
 			}
@@ -1628,4 +1628,26 @@ func (vc *FnVC) calledSoFar(c *ssa.Call) string {
 		return "false"
 	}
 	return r
+}
+
+// sameBase: two SSA values that denote the same object when nothing was stored in between (the
+// caller's scan guarantees that): the same value, or loads of the same field of the same base.
+func sameBase(a, b ssa.Value, depth int) bool {
+	if a == b {
+		return true
+	}
+	if depth == 0 {
+		return false
+	}
+	la, ok1 := a.(*ssa.UnOp)
+	lb, ok2 := b.(*ssa.UnOp)
+	if !ok1 || !ok2 || la.Op != token.MUL || lb.Op != token.MUL {
+		return false
+	}
+	fa, ok1 := la.X.(*ssa.FieldAddr)
+	fb, ok2 := lb.X.(*ssa.FieldAddr)
+	if !ok1 || !ok2 || fa.Field != fb.Field {
+		return false
+	}
+	return sameBase(fa.X, fb.X, depth-1)
 }
